@@ -1766,6 +1766,11 @@ namespace link_layer {
             }
 
             defered_ll_control_pdu_ = write_buffer{ nullptr, 0 };
+
+            // The procedure is now applied to the planned connection event. Moving that event to
+            // an earlier connection event (try_event_cancelation()) would apply the procedure
+            // before its instant.
+            this->disarmable_connection_state_last_latency( 1 );
         }
 
         return result;
